@@ -380,6 +380,39 @@ func genTable(cfg Config, emit0 func(string, bool, []string)) {
 			emit("table index-wide-channels", true, g.ops)
 			continue
 		}
+		if c%40 == 27 {
+			// objects with 8-12 tags (the first one not the smallest), updated with the same / a shifted
+			// tag set: every tag still lists the object, dropped tags do not
+			nt := 8 + r.IntN(5)
+			mk := func(from int) string {
+				var ts []string
+				ts = append(ts, hx([]byte{'m', byte('a' + from)}))
+				for j := 0; j < nt-1; j++ {
+					ts = append(ts, hx([]byte{byte('a' + (from+j)%20), byte('0' + j%3)}))
+				}
+				return strings.Join(ts, ",")
+			}
+			g.add("wtxn m")
+			g.add("ins m %s 1 0 %s - 0 1", hx([]byte("o1")), mk(0))
+			g.add("ins m %s 2 0 %s - 0 2", hx([]byte("o2")), mk(1))
+			g.add("commit")
+			g.nsnap++
+			g.add("wtxn m")
+			g.add("ins m %s 3 0 %s - 0 3", hx([]byte("o1")), mk(0)) // same tags, new data
+			g.add("list w m tags %s", hx([]byte{'m', 'a'}))
+			g.add("ins m %s 4 0 %s - 0 4", hx([]byte("o2")), mk(2)) // shifted tag set
+			g.add("list w m tags %s", hx([]byte{'m', 'b'}))
+			g.add("list w m tags %s", hx([]byte{'m', 'c'}))
+			g.add("commit")
+			g.nsnap++
+			for _, t := range []string{"ma", "mb", "mc", "a0", "b0", "b1", "c1", "c2"} {
+				g.add("list - m tags %s", hx([]byte(t)))
+			}
+			g.add("prefix - m tags %s", hx([]byte("m")))
+			g.add("all - m")
+			emit("table many-tags", true, g.ops)
+			continue
+		}
 		if c%40 == 17 {
 			// the table's LAST pending initializer is marked done and committed (the commit publishes a
 			// new table entry); afterwards a transaction over the OTHER table stays open across a commit to
